@@ -110,6 +110,17 @@ theorem secp_layer_shape :
     secpImportEth = ["com.tuntun.rangers/node/src/eth_crypto/secp256k1"] :=
   ⟨rfl, rfl, rfl, rfl, rfl, rfl, rfl⟩
 
+/-- At source level no check reads `SubTransactions`, `SubHash`, `ExtraDataType`, `RequestId` or
+    `SocketRequestId` (the model's `unauthenticated_fields_ignored`): the selectors on `tx` in
+    the whole verification path are exactly these (`ToTxJson` only feeds a log line). A check
+    that starts reading another field — or stops reading one — breaks this obligation. -/
+theorem verify_reads_only_authenticated_fields :
+    verifyFieldsRead = ["VerifyTransaction: Hash,Type", "verifyTxChainId: ChainId,Hash",
+      "verifyTransactionHash: GenHash,Hash", "verifyTransactionSign: Hash,Sign,Source",
+      "verifyETHTx: ExtraData,Hash,ToTxJson",
+      "compareTx: ChainId,Data,ExtraData,Hash,Nonce,Source,Target,Type",
+      "GenHash: ChainId,Data,ExtraData,Nonce,Source,Target,Time,Type"] := rfl
+
 theorem signer_call_order :
     eip155SenderCalls = ["tx.Protected", "HomesteadSigner{}.Sender", "tx.ChainId().Cmp", "tx.ChainId",
       "new(big.Int).Sub", "new", "V.Sub", "recoverPlain", "s.Hash"] ∧
